@@ -2,6 +2,7 @@ import Std.Data.HashMap
 import Driver.Common
 import Driver.OpsBits
 import Driver.OpsCode
+import Driver.OpsMask
 open Panqec
 
 /-! Line protocol: one operation per input line, one output line per input line.
@@ -9,7 +10,7 @@ open Panqec
     (`none` = not my op); the first that answers wins. -/
 
 def handlers : List (List String → Option String) :=
-  [Drv.handleBits, Drv.handleCode]
+  [Drv.handleBits, Drv.handleCode, Drv.handleMask]
 
 def handleToks (toks : List String) : String :=
   match handlers.findSome? (fun h => h toks) with
